@@ -159,11 +159,11 @@ def run(rep, tier):
     contain_shapes = [(9, 12, 4, 0), (9, 12, 5, 1), (8, 8, 3, 0), (10, 16, 6, 0), (10, 16, 7, 1)]
     if thorough:
         contain_shapes += [(12, 20, 9, 0), (12, 20, 2, 1), (7, 4, 3, 0), (9, 12, 6, 1), (8, 8, 5, 1), (12, 8, 8, 0), (10, 16, 2, 0)]
-        race_shapes = [(nr, nt, nc, d) for nr in (7, 8, 9, 10, 11, 12, 13) for nt in (4, 6, 8, 10, 12, 14, 16, 20, 24) for nc in range(0, 11) if nc <= nr - 3 for d in (0, 1)]
+        race_shapes = [(nr, nt, nc, d) for nr in (7, 8, 9, 10, 11, 12, 13) for nt in (4, 6, 8, 10, 12, 14, 16, 20, 24) for nc in range(0, 14) if nc <= nr for d in (0, 1)]
     else:
         race_shapes = [(7, 4, 2, 0), (7, 6, 3, 1), (7, 8, 4, 0), (8, 6, 5, 0), (9, 8, 6, 1), (10, 12, 7, 0), (12, 8, 8, 1), (12, 10, 9, 0),
                        (9, 16, 3, 0), (10, 4, 5, 1), (12, 20, 4, 0), (9, 10, 2, 1),
-                       (7, 8, 0, 0), (8, 6, 0, 0), (9, 12, 1, 0), (7, 8, 0, 1), (10, 16, 0, 0)]      # no / one circle: residuals and direct solvers only
+                       (7, 8, 0, 0), (8, 6, 0, 0), (9, 12, 1, 0), (7, 8, 0, 1), (10, 16, 0, 0), (7, 8, 7, 0), (8, 6, 7, 1), (9, 12, 7, 0)]      # no / one circle, no / short radial section: residuals and direct solvers only
     race_shapes = list(dict.fromkeys(contain_shapes + race_shapes))
     tabs, err = oc.intended_tables(rep, contain_shapes)
     if err:
